@@ -113,6 +113,18 @@ def sources(key: str, shape, nparams: int, prep, nq_total: int = 3) -> str:
     return src
 
 
+def metadata_param_order(circ):
+    """the order in which the installed tket lists the free symbols (TKET1.input_parameters), read
+    the same way /repo's compile_outer reads it; None if absent"""
+    from hugr import envelope
+    from hugr.envelope import EnvelopeConfig
+    from tket.circuit import Tk2Circuit
+
+    h = envelope.read_envelope(Tk2Circuit(circ).to_bytes(EnvelopeConfig.TEXT)).modules[0]
+    md = h[h.entrypoint].metadata
+    return list(md["TKET1.input_parameters"]) if "TKET1.input_parameters" in md else None
+
+
 class QubitScript:
     """measure_oracle forcing outcomes per interpreter qubit id (= caller argument position)."""
 
@@ -147,6 +159,7 @@ def run_case(job: dict) -> dict:
         REG[key] = build_circuit(job["shape"], job["ops"])
         src = sources(key, job["shape"], job["nparams"], job["prep"])
         res["src"] = src
+        res["param_order"] = metadata_param_order(REG[key]) if job.get("want_param_order") else None
         try:
             mod = gp.load(src, prelude=PRELUDE)
         except Exception as e:  # noqa: BLE001
